@@ -169,81 +169,6 @@ def _diff_kind(problem):
     return "separators/quoting differ: %s vs %s" % (strip(got), strip(exp))
 
 
-def decoder_names(ctx, sk):
-    """Names of the nested helpers of _split_keyvals that percent-decode."""
-    from ..util import closure
-    out = set()
-    for g in [g for g in closure(ctx, sk) if g is not sk]:
-        for c in calls_in(g.node):
-            d = ctx.proj.dotted(c.func, g.module, g) or ""
-            if d.startswith("urllib") and d.split(".")[-1] in ("unquote", "unquote_plus", "unquote_to_bytes"):
-                out.add(g.name)
-    return out
-
-
-def r_decode_layer(ctx, rule="R4"):
-    """Decoding is the last parsing layer: applied to each value separately, the decoded text is never split again, and it is
-    decided only after inference has fixed the format."""
-    from ..util import closure
-    sk = require_func(ctx, "parser._split_keyvals")
-    pool = closure(ctx, sk)
-    decs = []
-    for f in pool:
-        for c in calls_in(f.node):
-            d = ctx.proj.dotted(c.func, f.module, f) or ""
-            if d.startswith("urllib") and d.split(".")[-1] in ("unquote", "unquote_plus", "unquote_to_bytes"):
-                decs.append((f, c))
-    ctx.ob(rule, len(decs) >= 1, "the parser percent-decodes values", func=sk, sig="%d decode call(s)" % len(decs), nontrivial=False)
-    for f, c in decs:
-        comp = enclosing(c, (ast.ListComp, ast.GeneratorExp))
-        elementwise = comp is not None and len(c.args) >= 1 and isinstance(c.args[0], ast.Name) and \
-            any(isinstance(g.target, ast.Name) and g.target.id == c.args[0].id for g in comp.generators)
-        if not elementwise:
-            lp = enclosing(c, ast.For)
-            elementwise = lp is not None and len(c.args) >= 1 and isinstance(c.args[0], ast.Name) and isinstance(lp.target, ast.Name) and lp.target.id == c.args[0].id
-        ctx.ob(rule, elementwise, "each value is decoded on its own (decoding a joined string would let an escaped separator split it)", node=c, func=f,
-               sig="decode applied per value" if elementwise else "decode applied to %s" % (norm(c.args[0]) if c.args else "?"))
-        if f is not sk:
-            splits = [x for x in calls_in(f.node) if call_attr(x) in ("split", "rsplit", "partition", "splitlines")]
-            ctx.ob(rule, not splits, "decoded text is never split again", node=(splits[0] if splits else f.node), func=f,
-                   sig="no split in the decoder" if not splits else "decoder splits: %s" % norm(splits[0]))
-    # decided after the format is final: no store to dialect['fmt'] reachable after a decode (or decoder call) in the main function
-    cfg = cfg_of(sk)
-    dec_nodes = []
-    names = {f.name for f, _c in decs if f is not sk}
-    for c in calls_in(sk.node):
-        if (isinstance(c.func, ast.Name) and c.func.id in names) or any(c is x for f, x in decs if f is sk):
-            dec_nodes.append(c)
-    fmt_stores = [n for n in ast.walk(sk.node) if isinstance(n, ast.Assign) and isinstance(n.targets[0], ast.Subscript)
-                  and norm(n.targets[0].value) == "dialect" and const_str(n.targets[0].slice) == "fmt" and enclosing(n, ast.FunctionDef) is sk.node]
-    for c in dec_nodes:
-        cn = cfg.node_for(c)
-        late = [n for n in fmt_stores if cfg.node_for(n).id in cfg.reachable(cn.id)]
-        ctx.ob(rule, not late, "whether to decode is decided after inference has fixed the format (no later assignment of dialect['fmt'])", node=c, func=sk,
-               sig="decode after the format is final" if not late else "format still assigned (line %d) after values were decoded" % late[0].lineno)
-    ctx.ob(rule, len(dec_nodes) >= 2, "both parsing paths decode", func=sk, sig="%d decoding site(s) in _split_keyvals" % len(dec_nodes), nontrivial=False)
-
-
-def r2_r3(ctx):
-    """Separator candidates are tried longest-first (wherever the probing loop lives)."""
-    from ..util import closure
-    sk = require_func(ctx, "parser._split_keyvals")
-    loops = []
-    for f in closure(ctx, sk):
-        for n in ast.walk(f.node):
-            if isinstance(n, ast.For) and isinstance(n.iter, (ast.Tuple, ast.List)) and n.iter.elts \
-                    and all(const_str(e) is not None for e in n.iter.elts) and any(";" in const_str(e) for e in n.iter.elts):
-                loops.append((f, n))
-    ctx.ob("R2", len(loops) >= 1, "inference probes the candidate field separators", func=sk,
-           sig="separator candidates probed" if loops else "no separator candidate loop in the parser", nontrivial=False)
-    for f, lp in loops:
-        seps = [const_str(e) for e in lp.iter.elts]
-        bad = [(a, b) for i, a in enumerate(seps) for b in seps[i + 1:] if a in b]
-        ctx.ob("R2", not bad, "field separators are tried longest-first: no earlier candidate is contained in a later one", node=lp, func=f,
-               sig="separator candidates %r" % (seps,) if not bad else "candidate %r shadows the later %r" % bad[0])
-        ctx.ob("R2", set(seps) >= {" ; ", "; ", ";"}, "all three field separators of the grammar are candidates", node=lp, func=f, sig="candidates %r" % (seps,), nontrivial=False)
-
-
 def r_roundtrip(ctx, rule="R3"):
     """Template round trip: for every consistent dialect the template it denotes for a symbolic mapping parses back to
     that mapping (dialect supplied and inferred), and inference reports the dialect the template was written in."""
@@ -256,6 +181,7 @@ def r_roundtrip(ctx, rule="R3"):
         pat = (k, v)
     n = 0
     reported = set()
+    nonlist = []
 
     def fail(kind, detail):
         if kind not in reported:
@@ -263,15 +189,33 @@ def r_roundtrip(ctx, rule="R3"):
             ctx.ob(rule, False, "parsing the template a consistent dialect denotes for {k1:[v1,v2], k2:[v3], k3:[]} returns that mapping (values decoded "
                    "exactly when they were encoded) and, without a supplied dialect, infers the dialect it was written in", func=sk,
                    sig="round trip: %s" % kind, detail=detail)
+    runs = []
     for fam, cfg in printer.parse_configs():
-        for mp in printer.PARSE_MAPPINGS + (printer.PARSE_MAPPINGS_QUOTED if cfg["quoted GFF2 values"] else []):
+        for mp in printer.PARSE_MAPPINGS + printer.PARSE_MAPPINGS_ESCAPES + (printer.PARSE_MAPPINGS_QUOTED if cfg["quoted GFF2 values"] else []):
+            runs.append((fam, cfg, mp, False))
+        # the ignore_url_escape_characters switch: nothing is decoded, in any dialect
+        if cfg["field separator"] == ";" and not cfg["trailing semicolon"]:
+            for mp in printer.PARSE_MAPPINGS[:1] + printer.PARSE_MAPPINGS_ESCAPES:
+                runs.append((fam, cfg, mp, True))
+    for fam, cfg, mp, ignore in runs:
+        if True:
             text = printer.template_astr(cfg, mp)
             dial = {k: v for k, v in cfg.items() if not k.startswith("_")}
-            want = {k: [printer.value_name(x) for x in v] for k, v in mp}
+            decodes = cfg["fmt"] == "gff3" and not ignore
+            want = {}
+            for k, v in mp:
+                want[k] = []
+                for x in v:
+                    if x.startswith("lit:") or " " in x or "=" in x:
+                        want[k].append(printer.value_name(x, decoded=decodes))
+                    elif cfg["fmt"] == "gff3" and ignore:
+                        want[k].append("enc(%s)" % x)     # written encoded, read back as written
+                    else:
+                        want[k].append(x)
             for mode, d in (("supplied", dial), ("inferred", None)):
-                label = "%s dialect, %s, template %r" % (mode, fam, text.render())
+                label = "%s dialect, %s%s, template %r" % (mode, fam, ", escapes ignored" if ignore else "", text.render())
                 try:
-                    traces = printer.parse_run(ctx, sk, text, d, pat)
+                    traces = printer.parse_run(ctx, sk, text, d, pat, ignore=ignore)
                 except Unsupported as e:
                     ctx.require(False, "attribute parser outside the analysable subset: %s" % e)
                 for t in traces:
@@ -282,6 +226,12 @@ def r_roundtrip(ctx, rule="R3"):
                     res = t.result[1]
                     if not (isinstance(res, tuple) and len(res) == 2 and isinstance(res[0], dict)):
                         fail("parser does not return (mapping, dialect)", label)
+                        continue
+                    from ..absint import is_strlike
+                    odd = [k for k, v_ in res[0].items() if not (isinstance(v_, list) and all(is_strlike(x) or isinstance(x, str) for x in v_))]
+                    if odd:
+                        nonlist.append((label, odd))
+                        fail("values of %s are not lists of strings" % odd, "%s :: parsed %r" % (label, {k: res[0][k] for k in odd}))
                         continue
                     got = printer.names_of(res[0])
                     if got != want:
@@ -300,7 +250,8 @@ def r_roundtrip(ctx, rule="R3"):
                         if diff:
                             fail("inferred dialect differs in %s (%s)" % (diff, fam), "%s :: inferred %s, written as %s" % (label, {k: dl.get(k) for k in diff}, {k: exp[k] for k in diff}))
     ctx.extra["roundtrip_traces"] = n
-    ctx.ob(rule, not reported, "template round trip evaluated on %d parses (36 consistent dialects x 2 mappings, plus blank-carrying quoted values, x supplied/inferred)" % n, func=sk,
+    ctx.extra["roundtrip_nonlist"] = nonlist
+    ctx.ob(rule, not reported, "template round trip evaluated on %d parses (36 consistent dialects x mappings incl. literal escapes and blank-carrying quoted values, escapes honoured/ignored, x supplied/inferred)" % n, func=sk,
            sig="template round trip holds" if not reported else "template round trip fails (%d kinds)" % len(reported))
     ctx.assume("template round trip: attribute values are opaque and free of the structural characters %r; keys are plain words" % printer.STRUCTURAL)
 
@@ -311,13 +262,11 @@ def check(ctx):
         "_reconstruct is evaluated for a symbolic mapping under every dialect configuration and compared token by token with the template "
         "the dialect denotes; that template is then fed to _split_keyvals, with the dialect supplied and inferred, and must parse back to the "
         "mapping, with inference reporting the dialect it was written in. Around that: set comparison of the dialect keys written by "
-        "inference / read by reconstruction / declared; longest-first order of the separator candidates; the decode layer (per value, never "
-        "re-split, after the format is final); printing never mutates the shared dialect; column handling by abstract evaluation of "
+        "inference / read by reconstruction / declared; literally escaped structural characters in values come back as one decoded value "
+        "exactly in gff3 dialects with escapes honoured (decoding per value, after the split, after the format is final); printing never mutates the shared dialect; column handling by abstract evaluation of "
         "feature_from_line / __unicode__ (C01.R5). Values are opaque and free of structural characters: byte-for-byte identity for "
         "arbitrary values (escapes inside values, blanks inside values) is not decided.")
     r1(ctx)
-    r2_r3(ctx)
-    r_decode_layer(ctx)
     r_printer(ctx)
     r_roundtrip(ctx)
     from . import c01
